@@ -71,6 +71,9 @@ type Factory struct {
 	UFs     map[string][]int
 	UFOrder []string
 	Vars    []*Term
+
+	clt      map[*Term]int
+	cltRange map[*Term][2]uint64
 }
 
 func NewFactory() *Factory {
@@ -281,6 +284,17 @@ func (f *Factory) Eq(a, b *Term) *Term {
 	if a.Op == OpConst && b.Op == OpIte {
 		return f.Eq(b, a)
 	}
+	if a.W > 0 && a.W <= 64 {
+		if b.Op == OpConst && f.isCLT(a) {
+			return f.mapCLT(a, func(l *Term) *Term { return f.Bool(l.Val == b.Val) })
+		}
+		if a.Op == OpConst && f.isCLT(b) {
+			return f.mapCLT(b, func(l *Term) *Term { return f.Bool(l.Val == a.Val) })
+		}
+		if r := f.foldCmpRange(OpEq, a, b); r != nil {
+			return r
+		}
+	}
 	if a.ID > b.ID {
 		a, b = b, a
 	}
@@ -368,6 +382,14 @@ func (f *Factory) binBV(op Op, a, b *Term) *Term {
 		}
 		return f.Const(w, r)
 	}
+	if w <= 64 {
+		if b.Op == OpConst && f.isCLT(a) {
+			return f.mapCLT(a, func(l *Term) *Term { return f.binBV(op, l, b) })
+		}
+		if a.Op == OpConst && f.isCLT(b) {
+			return f.mapCLT(b, func(l *Term) *Term { return f.binBV(op, a, l) })
+		}
+	}
 	// light identities
 	if w <= 64 {
 		switch op {
@@ -401,6 +423,25 @@ func (f *Factory) binBV(op Op, a, b *Term) *Term {
 			}
 			if b.Op == OpConst && b.Val == mask(w) {
 				return a
+			}
+		}
+	}
+	if op == OpBXor {
+		// (x ^ y) ^ y = x in all four operand orders
+		if a.Op == OpBXor {
+			if a.Args[0] == b {
+				return a.Args[1]
+			}
+			if a.Args[1] == b {
+				return a.Args[0]
+			}
+		}
+		if b.Op == OpBXor {
+			if b.Args[0] == a {
+				return b.Args[1]
+			}
+			if b.Args[1] == a {
+				return b.Args[0]
 			}
 		}
 	}
@@ -441,12 +482,18 @@ func (f *Factory) BNot(a *Term) *Term {
 	if a.Op == OpConst {
 		return f.Const(a.W, ^a.Val)
 	}
+	if f.isCLT(a) {
+		return f.mapCLT(a, f.BNot)
+	}
 	return f.mk(OpBNot, a.W, 0, "", []*Term{a})
 }
 
 func (f *Factory) Neg(a *Term) *Term {
 	if a.Op == OpConst {
 		return f.Const(a.W, -a.Val)
+	}
+	if f.isCLT(a) {
+		return f.mapCLT(a, f.Neg)
 	}
 	return f.mk(OpNeg, a.W, 0, "", []*Term{a})
 }
@@ -469,6 +516,17 @@ func (f *Factory) cmp(op Op, a, b *Term) *Term {
 	}
 	if a == b {
 		return f.Bool(op == OpUle || op == OpSle)
+	}
+	if a.W <= 64 {
+		if b.Op == OpConst && f.isCLT(a) {
+			return f.mapCLT(a, func(l *Term) *Term { return f.cmp(op, l, b) })
+		}
+		if a.Op == OpConst && f.isCLT(b) {
+			return f.mapCLT(b, func(l *Term) *Term { return f.cmp(op, a, l) })
+		}
+		if r := f.foldCmpRange(op, a, b); r != nil {
+			return r
+		}
 	}
 	return f.mk(op, 0, 0, "", []*Term{a, b})
 }
@@ -497,6 +555,9 @@ func (f *Factory) Extract(a *Term, hi, lo int) *Term {
 	}
 	if a.Op == OpConst {
 		return f.Const(w, a.Val>>uint(lo))
+	}
+	if f.isCLT(a) {
+		return f.mapCLT(a, func(l *Term) *Term { return f.Extract(l, hi, lo) })
 	}
 	switch a.Op {
 	case OpZext, OpSext:
@@ -532,6 +593,9 @@ func (f *Factory) Zext(a *Term, w int) *Term {
 	if a.Op == OpZext {
 		return f.Zext(a.Args[0], w)
 	}
+	if w <= 64 && f.isCLT(a) {
+		return f.mapCLT(a, func(l *Term) *Term { return f.Zext(l, w) })
+	}
 	return f.mk(OpZext, w, 0, "", []*Term{a})
 }
 
@@ -550,6 +614,9 @@ func (f *Factory) Sext(a *Term, w int) *Term {
 	}
 	if a.Op == OpZext {
 		return f.Zext(a.Args[0], w)
+	}
+	if w <= 64 && f.isCLT(a) {
+		return f.mapCLT(a, func(l *Term) *Term { return f.Sext(l, w) })
 	}
 	return f.mk(OpSext, w, 0, "", []*Term{a})
 }
